@@ -30,6 +30,35 @@ CHECKS = {
          "Bounded exhaustive part (3/4 page nodes, fixed library); isolated-mode {% with %} between tag and fill that re-binds a bound name is an "
          "unspecified zone (flagged by the spec, skipped).",
          "§3, §4 C03"),
+ "C05": ("model_checking",
+         "TLC-evaluated reference semantics (provider chain along the rendered structure in DjcSemantics.tla) + implementation-shaped refcount machine DjcProvide.tla model-checked + exhaustive 'provide' pages replayed + TLC validation of random programs and same-process render histories",
+         "The `prov` threading of the TLA+ reference semantics decides every inject() result (nearest provider of the rendered structure, default, KeyError, "
+         "exact kwargs). DjcProvide.tla models provide_cache / provide_references / all_reference_ids with one action per critical section in the "
+         "deferred call order; TLC checks InjectSound, Quiescent and EntryDeletedOnlyWhenDone for all scenarios (and refutes the pre-fix variant as a "
+         "vacuity guard). Every enumerated page (providers, two keys, loops, consumers with/without default, provider around a slot) is replayed in both "
+         "modes; random programs and histories of 25-40 consecutive renders in one process are validated, with the registries inspected after each render.",
+         "A {% provide %} wrapped around a {% fill %} tag is outside the quantifier. KeyError compared by class. Refcount machine bound to the code through "
+         "observable inject results and registry residue, not by a step-by-step trace.",
+         "§4 C05, A.2"),
+ "C15": ("model_checking",
+         "TLC state graph of Registry.tla (registries x libraries x formatters) with every transition exported and replayed on real ComponentRegistry/Library objects + TLC trace validation of random histories + implementation-shaped RegistryImpl refinement",
+         "RegistryOps/Registry.tla specify register / decorate / unregister / clear / get / has / all / formatter switch over worlds [reg, lib, fmt] with the "
+         "admitted outcomes; TLC checks DictLike, TagIffUsed, ProtectedUntouched, ErrorsExact, SameClassNoOp, QueriesPure, Independent. Every transition of "
+         "21 (quick) / 36 (thorough) configurations is replayed on fresh real objects from a shortest path, all call sequences to depth 5-6 are replayed "
+         "exhaustively, and random traces (3 registries, 6 names, shared libraries, switching formatters) are validated by Trace_C15.",
+         "Templates are not compiled (the process-global start-tag table is outside C15); classes sharing a _class_hash are not generated; a taken-over "
+         "pre-existing unprotected tag may be absent or restored afterwards (both admitted).",
+         "§4 C15"),
+ "C19": ("model_checking",
+         "TLC enumeration of render / clear / redefine / prerender histories of ScriptEndpoint.tla with admissible-answer tables, each replayed with django.test.Client + TLC trace validation of random histories",
+         "ScriptEndpoint.tla models the media cache entries a render must make servable, class redefinition, pre-rendered HTML finished later, cache clears "
+         "and GETs over the whole request alphabet (hash x kind x input hash x method); TLC checks EmittedAreServed, MustServeDetermined, AnswersSane. Every "
+         "history up to the bound is one TLC state exported with its emitted set and per-request admissible answers and replayed on fresh real Component "
+         "classes via Component.render / render_to_response / Template+render_dependencies; emitted URLs are taken from the real HTML and fetched. Random "
+         "longer traces (also through COMPONENTS.cache='default') are validated by Trace_C19.",
+         "Served bodies compared after stripping outer whitespace; variables-script bodies not checked (feature marked TODO upstream); evictions during a "
+         "single render call not modelled; ASCII class names.",
+         "§4 C19"),
  "C18": ("model_checking",
          "TLC exhaustive state graph of LRUCache/TemplateCache + transition replay + TLC trace validation",
          "TLC enumerates the complete state graph of the LRU specification for every cache size and checks "
